@@ -204,12 +204,13 @@ Fixpoint prun (s : pstate) (tr : list plabel) : option pstate :=
 Definition preach (tr : list plabel) (s : pstate) : Prop := prun pinit tr = Some s.
 
 (* ======================================================================================
-   Sequential scheduler: runs ONE call to completion on the LTS (what a single controller
-   goroutine does).  Returns every outcome the LTS allows (Go's select picks at random
-   among ready cases) — used by the correspondence check and by the drain theorem.
-   `soon` = the harness armed a timer that fires within a few ms: a call that parks is
-   woken by it (WDlFire / RDlFire are then taken); an armed timer that is an hour away
-   leaves the call parked (OBlocked). *)
+   Call-level scheduler used by the correspondence check and by the drain theorem: runs ONE call
+   of the controller goroutine on the LTS up to its return or up to the point where it parks,
+   and lets parked calls of other goroutines continue ("settle").  Every function returns ALL
+   states the LTS allows (Go's select picks at random among ready cases; a parked writer that
+   gets room may complete its send at any point of a concurrent Read loop).
+   `soon` = the harness armed a timer that fires within a few ms: a parked call is woken by it
+   (WDlFire / RDlFire are then taken); a timer an hour away leaves the call parked. *)
 Inductive obs :=
 | ObW (n : N) (r : wres)
 | ObR (d : bytes) (r : rres)
@@ -217,86 +218,92 @@ Inductive obs :=
 | ObParked            (* the call is parked in its blocking select (split-phase calls of the harness) *)
 | ObBlocked.          (* the call never returned (watchdog) *)
 
-Definition bind {A B} (o : option A) (f : A -> option B) : option B := match o with Some a => f a | None => None end.
-
+Definition olist {A} (o : option A) : list A := match o with Some a => [a] | None => [] end.
 Definition wres_n (p : bytes) (r : wres) : N := match r with WOk => lenN p | _ => 0 end.
-Definition last_obs (s : dstate) : obs :=
-  match hist s with
-  | EvW p _ r :: _ => ObW (wres_n p r) r
-  | EvR _ d r :: _ => ObR d r
-  | [] => ObNil
-  end.
-Definition fin (o : option dstate) : list (dstate * obs) :=
-  match o with Some s => [(s, last_obs s)] | None => [] end.
+Fixpoint last_w (h : list ev) : obs :=
+  match h with [] => ObNil | EvW p _ r :: _ => ObW (wres_n p r) r | _ :: h' => last_w h' end.
+Fixpoint last_r (h : list ev) : obs :=
+  match h with [] => ObNil | EvR _ d r :: _ => ObR d r | _ :: h' => last_r h' end.
+Definition w_parked (s : dstate) : bool := match wp s with WBlk _ _ => true | _ => false end.
+Definition r_parked (s : dstate) : bool := match rp s with RWait _ _ => true | _ => false end.
 
 (* Write up to its return or up to the blocking select *)
-Definition exec_write_start (s : dstate) (p : bytes) : list (dstate * obs) :=
+Definition write_start (s : dstate) (p : bytes) : list dstate :=
   match step s (LWStart p) with
   | None => []
   | Some s1 =>
       match step s1 LWChkClosed with
-      | Some s2 => fin (Some s2)
+      | Some s2 => [s2]
       | None =>
           match step s1 LWChkOpen with
           | None => []
           | Some s2 =>
               match step s2 LWSendFast with
-              | Some s3 => fin (Some s3)
-              | None => match step s2 LWSendDefault with Some s3 => [(s3, ObParked)] | None => [] end
+              | Some s3 => [s3]
+              | None => olist (step s2 LWSendDefault)
               end
           end
       end
   end.
-(* a parked Write wakes up: every ready case of the select is a possible outcome *)
-Definition exec_write_resume (s : dstate) (soon : bool) : list (dstate * obs) :=
+(* a parked Write wakes up: every ready case of the select is a possible outcome; [] = stays parked *)
+Definition write_resume (s : dstate) (soon : bool) : list dstate :=
   let fired := match step s LWDlFire with Some s' => if soon then s' else s | None => s end in
-  let outs := fin (step s LWSendSlow) ++ fin (step fired LWDlTimeout) ++ fin (step s LWStopClosed) in
-  match outs with [] => [(s, ObBlocked)] | _ => outs end.
-Definition resume_parked (resume : dstate -> list (dstate * obs)) (so : dstate * obs) : list (dstate * obs) :=
-  match snd so with ObParked => resume (fst so) | _ => [so] end.
-Definition exec_write (s : dstate) (soon : bool) (p : bytes) : list (dstate * obs) :=
-  flat_map (resume_parked (fun s' => exec_write_resume s' soon)) (exec_write_start s p).
+  olist (step s LWSendSlow) ++ olist (step fired LWDlTimeout) ++ olist (step s LWStopClosed).
 
-(* continue a Read that is past its first channel operation: only RTakeFast / RTakeDefault(mb=false) remain *)
-Fixpoint exec_read_loop (fuel : nat) (s : dstate) : option dstate :=
+(* the non-blocking part of the Read loop (mayBlock = false) *)
+Fixpoint read_loop (fuel : nat) (s : dstate) : list dstate :=
   match rp s with
-  | RIdle => Some s
+  | RIdle => [s]
   | RNeed _ _ _ false =>
       match fuel with
-      | O => None
-      | S f => match step s LRTakeFast with
-               | Some s' => exec_read_loop f s'
-               | None => bind (step s LRTakeDefault) (exec_read_loop f)
-               end
+      | O => []
+      | S f =>
+          (match step s LRTakeFast with
+           | Some s' => read_loop f s'
+           | None => match step s LRTakeDefault with Some s' => read_loop f s' | None => [] end
+           end)
+          ++ (match step s LWSendSlow with Some s' => read_loop f s' | None => [] end)
       end
-  | _ => None
+  | _ => []
   end.
-Definition loop_fuel (s : dstate) : nat := S (S (length (chan s))).
-Definition fin_loop (o : option dstate) : list (dstate * obs) :=
-  match o with Some s => fin (exec_read_loop (loop_fuel s) s) | None => [] end.
+Definition loop_fuel (s : dstate) : nat := 8 + 2 * length (chan s).
+Definition loop_from (o : option dstate) : list dstate :=
+  match o with Some s => read_loop (loop_fuel s) s | None => [] end.
 
-Definition exec_read_start (s : dstate) (n : N) : list (dstate * obs) :=
+Definition read_start (s : dstate) (n : N) : list dstate :=
   match step s (LRStart n) with
   | None => []
   | Some s1 =>
       match rp s1 with
       | RNeed _ _ _ true =>
           match step s1 LRTakeFast with
-          | Some s2 => fin_loop (Some s2)
-          | None => match step s1 LRTakeDefault with Some s2 => [(s2, ObParked)] | None => [] end
+          | Some s2 => loop_from (Some s2)
+          | None => olist (step s1 LRTakeDefault)          (* parked *)
           end
-      | _ => fin_loop (Some s1)
+      | _ => loop_from (Some s1)
       end
   end.
-Definition exec_read_resume (s : dstate) (soon : bool) : list (dstate * obs) :=
+Definition read_resume (s : dstate) (soon : bool) : list dstate :=
   let fired := match step s LRDlFire with Some s' => if soon then s' else s | None => s end in
   let via_dl := match step fired LRDlWake with
-                | Some s3 => fin_loop (step s3 LRDlTake) ++ fin (step s3 LRDlTimeout)
+                | Some s3 => loop_from (step s3 LRDlTake) ++ olist (step s3 LRDlTimeout)
                 | None => [] end in
   let via_stop := match step s LRStopWake with
-                  | Some s3 => fin_loop (step s3 LRStopTake) ++ fin (step s3 LRStopEof)
+                  | Some s3 => loop_from (step s3 LRStopTake) ++ olist (step s3 LRStopEof)
                   | None => [] end in
-  let outs := fin_loop (step s LRTakeSlow) ++ via_dl ++ via_stop in
-  match outs with [] => [(s, ObBlocked)] | _ => outs end.
-Definition exec_read (s : dstate) (soon : bool) (n : N) : list (dstate * obs) :=
-  flat_map (resume_parked (fun s' => exec_read_resume s' soon)) (exec_read_start s n).
+  loop_from (step s LRTakeSlow) ++ via_dl ++ via_stop.
+
+Definition or_stay (s : dstate) (l : list dstate) : list dstate := match l with [] => [s] | _ => l end.
+Definition settle_w (soon : bool) (s : dstate) : list dstate :=
+  if w_parked s then or_stay s (write_resume s soon) else [s].
+Definition settle_r (soon : bool) (s : dstate) : list dstate :=
+  if r_parked s then or_stay s (read_resume s soon) else [s].
+(* parked calls continue as far as they can *)
+Definition settle_dir (wsoon rsoon : bool) (s : dstate) : list dstate :=
+  flat_map (settle_w wsoon) (flat_map (settle_r rsoon) (settle_w wsoon s)).
+
+(* a whole call from a state where nothing is parked *)
+Definition exec_write (s : dstate) (soon : bool) (p : bytes) : list dstate :=
+  flat_map (settle_w soon) (write_start s p).
+Definition exec_read (s : dstate) (soon : bool) (n : N) : list dstate :=
+  flat_map (settle_r soon) (read_start s n).
